@@ -367,6 +367,13 @@ def replay(ov, prop, item, extra, timeout=900, native=True):
         # concrete playback reads the counterexample values from CBMC's trace: this run is not filtered
         _rc, gen_out = run_group(cmd, ov, dict(ENV, VERIF_CBMC_FILTER=""), timeout)
     except subprocess.TimeoutExpired:
+        if not native:
+            # CBMC-only harness: the verdict is the solver's (the obligation's cover came back SATISFIED in the
+            # main run); only the extraction of concrete values for the report did not finish
+            open(path, "w").write(f"// Replay for {item['property']} / {h}\n// failing obligation: {item['label']}\n"
+                                  "// solver counterexample exists (cover SATISFIED); extracting its values (Kani concrete playback, an\n"
+                                  "// unfiltered CBMC run with the full trace) timed out; no native replay: CBMC-only environment\n")
+            return True, path, "solver counterexample (values not extracted: concrete-playback run timed out; CBMC-only environment)"
         return None, path, "playback generation timed out"
     blocks = re.findall(r"#\[test\]\s*\nfn kani_concrete_playback_\w+\(\) \{.*?\n\}\n", gen_out, re.S)
     seen_names, uniq_blocks = set(), []
@@ -378,6 +385,8 @@ def replay(ov, prop, item, extra, timeout=900, native=True):
     blocks = uniq_blocks
     if not blocks:
         open(path, "w").write("// no concrete playback test was generated\n// " + item["label"] + "\n")
+        if not native:
+            return True, path, "solver counterexample (values not extracted; CBMC-only environment)"
         return None, path, "no playback test generated"
     body = "\n".join(blocks).replace(f"concrete_vals, {short})", f"concrete_vals, super::{rel})")
     with open(path, "w") as fh:
